@@ -9,7 +9,7 @@ from rules import eavobj, emailfn
 from rules.eavobj import BACKENDS, STRERROR, SUCCESS
 from rules.c13 import setup_paths
 from rules.c10 import trace
-from rules.c04 import conv_output
+from rules.c04 import conv_output, out_end
 from report import AnalysisBroken
 
 LEVEL = 'other'
@@ -72,7 +72,7 @@ def run(ck):
             a = p.calls('is_ascii_domain')
             if not conv or not a: s.add(('early', p.ret()[1])); continue
             out = conv_output(conv[-1])          # the conversion whose output is used (a retry makes a second call)
-            s.add((trace(p, out, f'({out} + strlen#1)', p.events.index(a[0]), p.ret()[1]), ('conversions', len(conv))))
+            s.add((trace(p, out, out_end(p, out), p.events.index(a[0]), p.ret()[1]), ('conversions', len(conv))))
         tr[b] = s
         ck.analysed(units=[k], functions=[f'{k}:is_utf8_domain'])
     for b in BACKENDS:
